@@ -771,6 +771,11 @@ def sliceFn : String → Option (Buf → R Buf)
   | "tcpPayload" => some tcpPayload
   | "tcpOptionsRaw" => some tcpOptionsRaw
   | "echoPayload" => some echoPayload
+  -- `get_options_raw_mut` computes the same range as `get_options_raw`
+  | "ipv4OptionsRawMut" => some ipv4OptionsRaw
+  -- `payload()` of the echo views and `payload_raw()` of the error views: `&buf[8..]`
+  | "echoReply4Payload" | "echoRequest6Payload" | "echoReply6Payload" => some echoPayload
+  | "te4PayloadRaw" | "du4PayloadRaw" | "te6PayloadRaw" | "du6PayloadRaw" => some echoPayload
   | _ => none
 
 /-- requests with the leading word `wire` stripped -/
